@@ -3,8 +3,9 @@ import KG.Model.Strategy
 # C20 as a decidable judge
 
 The property, clause by clause, evaluated on a (stored, result) pair of ONE accepted request. It is stated on
-field groups with plain equality, for any types: the harness applies it to the real code's output with the
-values rendered the way the API renders them (JSON, `omitempty`), the theorems apply it to the model's output.
+field groups with plain equality, for any types: the harness applies it to the real code's answers and the
+theorems to the model's, both rendered the way the API shows them (`View`, below: an empty map/list/byte
+string reads the same as a missing one).
 
 Reading of "The generation increases by one exactly when the spec or the annotations change" (DESIGN §5 C20,
 re-examined in notes/C20.md): "change" compares the object before the request with the object after it; the
@@ -66,19 +67,19 @@ def statusAnnotationsOnly (stored out : Obj L A M S T) : Bool :=
 
 end
 
-/-! ### The API's view of a value
+/-! ### The API's view of an object
 
-`DeepEqual` (the model's `=`) is finer than what a client can see: `annotations: {}` and no annotations, `[]`
-and no list, `""` and no bytes are different Go values but render to the same document (`omitempty`), and
-decoding what the server stores gives back the `nil` form. `View` maps a field group to its rendering. -/
+A client sees renderings, not Go values: `annotations: {}` and no annotations, `[]` and no list, `""` and no
+bytes are different decoded values that read the same. A `View` maps each field group to what the API shows;
+for spec and annotations it is the rendering `Sem` under which the code itself compares (`semanticEqual`), for
+labels and status any function. The judge is applied to `v.obj stored` and `v.obj result`. -/
 structure View (L A S T L' A' S' T' : Type) where
   labels : L → L'
-  annotations : A → A'
-  spec : S → S'
   status : T → T'
+  sem : Sem A S A' S'
 
 def View.obj {L A M S T L' A' S' T' : Type} (v : View L A S T L' A' S' T') (o : Obj L A M S T) : Obj L' A' M S' T' :=
-  { labels := v.labels o.labels, annotations := v.annotations o.annotations, generation := o.generation,
-    otherMeta := o.otherMeta, spec := v.spec o.spec, status := v.status o.status }
+  { labels := v.labels o.labels, annotations := v.sem.annotations o.annotations, generation := o.generation,
+    otherMeta := o.otherMeta, spec := v.sem.spec o.spec, status := v.status o.status }
 
 end KG.Spec.Strategy
